@@ -9,9 +9,13 @@
 (*           SOCKET_COMMAND_RPORTFWD_REMOVE (close and forget)             *)
 (*         the reader goroutine started there (target -> write tasks)      *)
 (*         pkg/agent/agent.go PortFwdNew/Get/Open/Write/Read/Close         *)
-(* One action per critical section: each callback is one action, the       *)
-(* reader goroutine's loop body (Reader) is an action of its own, what the *)
-(* target does on its end of the TCP connection are actions of their own.  *)
+(* One action per critical section: each callback is one action; what the  *)
+(* target does on its end of the TCP connection are actions of their own;  *)
+(* the reader goroutine is a little machine per socket: it sits in Read    *)
+(* ("idle"), comes back holding data, the end of the stream or an error    *)
+(* ("data", "eof", "dead") and then acts on what it holds (Reader) - the   *)
+(* hook point verifhook "portfwd.read" sits exactly between the two, so    *)
+(* that anything else can be scheduled before the reader acts.             *)
 (***************************************************************************)
 EXTENDS Integers, Sequences, FiniteSets, TLC
 CONSTANTS Socks, UpChunks, DownChunks, MaxOps
@@ -21,77 +25,100 @@ VARIABLES ent,     \* [Socks -> "none" | "listed" | "open" | "gone"]   the agent
           sent,    \* [Socks -> Seq(UpChunks)]    data the agent sent for the socket while the forward could take it
           tgot,    \* [Socks -> Seq(UpChunks)]    what the target has received
           wrote,   \* [Socks -> Seq(DownChunks)]  what the target has written
-          pend,    \* [Socks -> Seq(DownChunks)]  written by the target, not yet picked up by the reader goroutine
-          eofp,    \* [Socks -> BOOLEAN]          the target's close has not been picked up yet
+          pend,    \* [Socks -> Seq(DownChunks)]  written by the target, still in the connection (the reader holds something else)
+          eofp,    \* [Socks -> BOOLEAN]          the target's close is still in the connection
+          rd,      \* [Socks -> "none" | "idle" | "data" | "eof" | "dead" | "exit"]   the reader goroutine
+          held,    \* [Socks -> Seq(DownChunks)]  what the reader has read and not yet acted upon
           q,       \* tasks queued for the agent: [k |-> "w", s, d |-> Seq(DownChunks)] or [k |-> "c", s]
           agot,    \* [Socks -> Seq(DownChunks)]  what the agent has been handed in write tasks
           atold,   \* sockets the agent has been told to close
           byagent, \* sockets the agent itself removed (data in flight for them may be dropped)
           last, hist
-vars == <<ent, tside, sent, tgot, wrote, pend, eofp, q, agot, atold, byagent, last, hist>>
-view == <<ent, tside, sent, tgot, wrote, pend, eofp, q, agot, atold, byagent, last, Len(hist)>>
+vars == <<ent, tside, sent, tgot, wrote, pend, eofp, rd, held, q, agot, atold, byagent, last, hist>>
+view == <<ent, tside, sent, tgot, wrote, pend, eofp, rd, held, q, agot, atold, byagent, last, Len(hist)>>
 
 Init == /\ ent = [s \in Socks |-> "none"] /\ tside = [s \in Socks |-> "none"]
         /\ sent = [s \in Socks |-> <<>>] /\ tgot = [s \in Socks |-> <<>>]
         /\ wrote = [s \in Socks |-> <<>>] /\ pend = [s \in Socks |-> <<>>] /\ eofp = [s \in Socks |-> FALSE]
+        /\ rd = [s \in Socks |-> "none"] /\ held = [s \in Socks |-> <<>>]
         /\ q = <<>> /\ agot = [s \in Socks |-> <<>>] /\ atold = {} /\ byagent = {}
         /\ last = [op |-> "none"] /\ hist = <<>>
 Log(o) == hist' = Append(hist, o) /\ last' = o /\ Len(hist) < MaxOps
 LogR(o) == hist' = Append(hist, o) /\ last' = o          \* the reader's turns are not counted against the bound
 
-ReaderEnabled(s) == ent[s] = "open" /\ (pend[s] # <<>> \/ eofp[s])
+ReaderEnabled(s) == rd[s] \in {"data", "eof", "dead"}
 
 (* the agent accepted a connection on its forwarded port: SOCKET_COMMAND_OPEN.  A second announcement of a socket
    that is already in the table changes nothing. *)
 Open(s) == /\ ent[s] \in {"none", "listed", "open"}
            /\ ent' = IF ent[s] = "none" THEN [ent EXCEPT ![s] = "listed"] ELSE ent
-           /\ UNCHANGED <<tside, sent, tgot, wrote, pend, eofp, q, agot, atold, byagent>>
+           /\ UNCHANGED <<tside, sent, tgot, wrote, pend, eofp, rd, held, q, agot, atold, byagent>>
            /\ Log([op |-> "Open", s |-> s])
 
-(* the agent read data from its client: SOCKET_COMMAND_READ, type client.  First data dials the target. *)
+(* the agent read data from its client: SOCKET_COMMAND_READ, type client.  First data dials the target and starts the reader. *)
 Data(s, c) ==
     /\ IF ent[s] = "listed"
-       THEN ent' = [ent EXCEPT ![s] = "open"] /\ tside' = [tside EXCEPT ![s] = "open"]
+       THEN ent' = [ent EXCEPT ![s] = "open"] /\ tside' = [tside EXCEPT ![s] = "open"] /\ rd' = [rd EXCEPT ![s] = "idle"]
             /\ sent' = [sent EXCEPT ![s] = Append(@, c)] /\ tgot' = [tgot EXCEPT ![s] = Append(@, c)]
        ELSE IF ent[s] = "open" /\ tside[s] = "open"
-       THEN sent' = [sent EXCEPT ![s] = Append(@, c)] /\ tgot' = [tgot EXCEPT ![s] = Append(@, c)] /\ UNCHANGED <<ent, tside>>
-       ELSE UNCHANGED <<ent, tside, sent, tgot>>          \* unknown or removed socket: reported on the console, nothing else
+       THEN sent' = [sent EXCEPT ![s] = Append(@, c)] /\ tgot' = [tgot EXCEPT ![s] = Append(@, c)] /\ UNCHANGED <<ent, tside, rd>>
+       ELSE UNCHANGED <<ent, tside, sent, tgot, rd>>      \* unknown or removed socket: reported on the console, nothing else
     /\ ~(ent[s] = "open" /\ tside[s] # "open")             \* (writing to a target that has gone is left open here)
-    /\ UNCHANGED <<wrote, pend, eofp, q, agot, atold, byagent>>
+    /\ UNCHANGED <<wrote, pend, eofp, held, q, agot, atold, byagent>>
     /\ Log([op |-> "Data", s |-> s, c |-> c])
 
-(* the target writes on its end *)
+(* the target writes on its end; a reader sitting in Read comes back with it at once *)
 TargetWrite(s, c) == /\ tside[s] = "open" /\ ent[s] = "open"
-                     /\ wrote' = [wrote EXCEPT ![s] = Append(@, c)] /\ pend' = [pend EXCEPT ![s] = Append(@, c)]
+                     /\ wrote' = [wrote EXCEPT ![s] = Append(@, c)]
+                     /\ IF rd[s] = "idle"
+                        THEN rd' = [rd EXCEPT ![s] = "data"] /\ held' = [held EXCEPT ![s] = <<c>>] /\ UNCHANGED pend
+                        ELSE pend' = [pend EXCEPT ![s] = Append(@, c)] /\ UNCHANGED <<rd, held>>
                      /\ UNCHANGED <<ent, tside, sent, tgot, eofp, q, agot, atold, byagent>>
-                     /\ Log([op |-> "TargetWrite", s |-> s, c |-> c])
+                     /\ Log([op |-> "TargetWrite", s |-> s, c |-> c, w |-> rd[s] = "idle"])
 (* the target closes its end *)
 TargetClose(s) == /\ tside[s] = "open" /\ ent[s] = "open"
-                  /\ tside' = [tside EXCEPT ![s] = "closed"] /\ eofp' = [eofp EXCEPT ![s] = TRUE]
-                  /\ UNCHANGED <<ent, sent, tgot, wrote, pend, q, agot, atold, byagent>>
-                  /\ Log([op |-> "TargetClose", s |-> s])
+                  /\ tside' = [tside EXCEPT ![s] = "closed"]
+                  /\ IF rd[s] = "idle" THEN rd' = [rd EXCEPT ![s] = "eof"] /\ UNCHANGED eofp
+                                       ELSE eofp' = [eofp EXCEPT ![s] = TRUE] /\ UNCHANGED rd
+                  /\ UNCHANGED <<ent, sent, tgot, wrote, pend, held, q, agot, atold, byagent>>
+                  /\ Log([op |-> "TargetClose", s |-> s, w |-> rd[s] = "idle"])
 
-(* one turn of the reader goroutine: whatever the target has written so far becomes a write task for the agent, as soon
-   as it is there (not only when the stream ends); at the end of the stream the agent is told to close its side and
-   the forward leaves the table *)
-Reader(s) == /\ ReaderEnabled(s)
-             /\ IF pend[s] # <<>>
-                THEN q' = Append(q, [k |-> "w", s |-> s, d |-> pend[s]]) /\ pend' = [pend EXCEPT ![s] = <<>>]
-                     /\ UNCHANGED <<ent, eofp>>
-                ELSE q' = Append(q, [k |-> "c", s |-> s, d |-> <<>>]) /\ ent' = [ent EXCEPT ![s] = "gone"]
-                     /\ eofp' = [eofp EXCEPT ![s] = FALSE] /\ UNCHANGED pend
-             /\ UNCHANGED <<tside, sent, tgot, wrote, agot, atold, byagent>>
-             /\ LogR([op |-> "Reader", s |-> s])
+(* what the reader finds when it goes back into Read *)
+NextRead(s, stillListed) == IF ~stillListed THEN "dead"
+                            ELSE IF pend[s] # <<>> THEN "data" ELSE IF eofp[s] THEN "eof" ELSE "idle"
+(* the reader acts on what it holds.  Data becomes a write task for the agent as soon as it is there (not only when the
+   stream ends) - also for a socket the agent has removed meanwhile; at the end of the stream the agent is told to close
+   its side and the forward leaves the table, unless the agent removed it first; after that the reader is gone. *)
+Reader(s) ==
+    /\ ReaderEnabled(s)
+    /\ \/ /\ rd[s] = "data"
+          /\ q' = Append(q, [k |-> "w", s |-> s, d |-> held[s]])
+          /\ LET nr == NextRead(s, ent[s] = "open") IN
+               /\ rd' = [rd EXCEPT ![s] = nr]
+               /\ IF nr = "data" THEN held' = [held EXCEPT ![s] = pend[s]] /\ pend' = [pend EXCEPT ![s] = <<>>] /\ UNCHANGED eofp
+                  ELSE IF nr = "eof" THEN held' = [held EXCEPT ![s] = <<>>] /\ eofp' = [eofp EXCEPT ![s] = FALSE] /\ UNCHANGED pend
+                  ELSE held' = [held EXCEPT ![s] = <<>>] /\ UNCHANGED <<pend, eofp>>
+          /\ UNCHANGED ent
+       \/ /\ rd[s] = "eof"
+          /\ IF ent[s] = "open" THEN ent' = [ent EXCEPT ![s] = "gone"] /\ q' = Append(q, [k |-> "c", s |-> s, d |-> <<>>])
+                                ELSE UNCHANGED <<ent, q>>
+          /\ rd' = [rd EXCEPT ![s] = "exit"] /\ UNCHANGED <<held, pend, eofp>>
+       \/ /\ rd[s] = "dead"
+          /\ rd' = [rd EXCEPT ![s] = "exit"] /\ UNCHANGED <<ent, q, held, pend, eofp>>
+    /\ UNCHANGED <<tside, sent, tgot, wrote, agot, atold, byagent>>
+    /\ LogR([op |-> "Reader", s |-> s, what |-> rd[s], d |-> held[s], w |-> rd'[s] \in {"data", "eof", "dead"}])   \* w: is the reader back at the gate afterwards (only tells the harness what to wait for)
 
-(* the agent's side went away: SOCKET_COMMAND_RPORTFWD_REMOVE for the socket *)
+(* the agent's side went away: SOCKET_COMMAND_RPORTFWD_REMOVE for the socket.  The connection is closed: what was still
+   in it is lost, a reader sitting in Read comes back with an error *)
 Remove(s) == /\ IF ent[s] \in {"listed", "open"}
                 THEN /\ ent' = [ent EXCEPT ![s] = "gone"]
                      /\ tside' = [tside EXCEPT ![s] = IF @ = "open" THEN "eof" ELSE @]
                      /\ pend' = [pend EXCEPT ![s] = <<>>] /\ eofp' = [eofp EXCEPT ![s] = FALSE]
+                     /\ rd' = [rd EXCEPT ![s] = IF @ = "idle" THEN "dead" ELSE @]
                      /\ byagent' = byagent \cup {s}
-                ELSE UNCHANGED <<ent, tside, pend, eofp, byagent>>
-             /\ UNCHANGED <<sent, tgot, wrote, q, agot, atold>>
-             /\ Log([op |-> "Remove", s |-> s])
+                ELSE UNCHANGED <<ent, tside, pend, eofp, rd, byagent>>
+             /\ UNCHANGED <<sent, tgot, wrote, held, q, agot, atold>>
+             /\ Log([op |-> "Remove", s |-> s, w |-> (ent[s] \in {"listed", "open"} /\ rd[s] = "idle")])
 
 RECURSIVE Hand(_, _, _)
 Hand(tasks, got, told) == IF tasks = <<>> THEN <<got, told>>
@@ -101,7 +128,7 @@ Hand(tasks, got, told) == IF tasks = <<>> THEN <<got, told>>
 (* the agent checks in and is handed everything queued, in order *)
 CheckIn == /\ LET r == Hand(q, agot, atold) IN agot' = r[1] /\ atold' = r[2]
            /\ q' = <<>>
-           /\ UNCHANGED <<ent, tside, sent, tgot, wrote, pend, eofp, byagent>>
+           /\ UNCHANGED <<ent, tside, sent, tgot, wrote, pend, eofp, rd, held, byagent>>
            /\ Log([op |-> "CheckIn"])
 
 Visible == \/ \E s \in Socks : Open(s) \/ Remove(s) \/ TargetClose(s)
@@ -109,7 +136,7 @@ Visible == \/ \E s \in Socks : Open(s) \/ Remove(s) \/ TargetClose(s)
            \/ \E s \in Socks, c \in DownChunks : TargetWrite(s, c)
            \/ CheckIn
 Next == Visible \/ \E s \in Socks : Reader(s)
-(* what a harness without a gate inside the reader goroutine can stage: the reader reacts before anything else happens *)
+(* what a harness without the gate in the reader goroutine can stage: the reader acts before anything else happens *)
 NextSettled == IF \E s \in Socks : ReaderEnabled(s) THEN \E s \in Socks : Reader(s) ELSE Visible
 Spec == Init /\ [][Next]_vars /\ \A s \in Socks : WF_vars(Reader(s))
 SpecSettled == Init /\ [][NextSettled]_vars
@@ -119,13 +146,18 @@ QW(tasks, s) == IF tasks = <<>> THEN <<>> ELSE (IF Head(tasks).k = "w" /\ Head(t
 QC(s) == \E i \in 1..Len(q) : q[i].k = "c" /\ q[i].s = s
 (* C15, port forwards: bytes move intact and in order in both directions, nothing is lost on the way ... *)
 UpIntact == \A s \in Socks : tgot[s] = sent[s]
-DownIntact == \A s \in Socks : s \notin byagent => agot[s] \o QW(q, s) \o pend[s] = wrote[s]
+DownIntact == \A s \in Socks : s \notin byagent => agot[s] \o QW(q, s) \o held[s] \o pend[s] = wrote[s]
 (* ... and closing either side removes the socket everywhere *)
 ClosedEverywhere == \A s \in Socks :
-    /\ (tside[s] = "closed" /\ ~ReaderEnabled(s) /\ s \notin byagent) => (ent[s] = "gone" /\ (s \in atold \/ QC(s)))
+    /\ (tside[s] = "closed" /\ rd[s] = "exit" /\ s \notin byagent) => (ent[s] = "gone" /\ (s \in atold \/ QC(s)))
     /\ (s \in byagent) => (ent[s] = "gone" /\ tside[s] # "open")
 TypeOK == /\ \A s \in Socks : ent[s] \in {"none", "listed", "open", "gone"} /\ tside[s] \in {"none", "open", "closed", "eof"}
-          /\ \A s \in Socks : (ent[s] = "open") => tside[s] \in {"open", "closed"}
-(* data the target wrote is eventually on its way to the agent (or the agent removed the socket) *)
-Delivered == \A s \in Socks : (pend[s] # <<>>) ~> (pend[s] = <<>>)
+          /\ \A s \in Socks : rd[s] \in {"none", "idle", "data", "eof", "dead", "exit"}
+          /\ \A s \in Socks : (ent[s] = "open") => (tside[s] \in {"open", "closed"} /\ rd[s] \in {"idle", "data", "eof"})
+          /\ \A s \in Socks : (held[s] # <<>>) <=> rd[s] = "data"
+          /\ \A s \in Socks : (pend[s] # <<>> \/ eofp[s]) => rd[s] = "data"
+(* data the target wrote is eventually on its way to the agent (or the agent removed the socket), the close likewise,
+   and no reader goroutine stays behind once its forward is gone *)
+Delivered == \A s \in Socks : (held[s] # <<>> \/ pend[s] # <<>>) ~> (held[s] = <<>> /\ pend[s] = <<>>)
+NoReaderLeftBehind == \A s \in Socks : (ent[s] = "gone") ~> (rd[s] \in {"none", "exit"})
 =============================================================================
